@@ -1338,6 +1338,15 @@ class Exec:
                 for p, a in zip(cf.params, actuals):
                     if isinstance(a, V):
                         env[p['n']] = V(a.term, a.sort, p['t'])
+            else:
+                # interface method: parameter names from the interface contract
+                for (its, m), ic in self.vc.cs.ifaces.items():
+                    if m == short and callee.startswith(its):
+                        names = [ic.recv_name or 'self'] + list(ic.param_names or [])
+                        types = self.callee_param_types(None, ic)
+                        for pn, pt, a in zip(names, types, actuals):
+                            if isinstance(a, V):
+                                env[pn] = V(a.term, a.sort, pt)
             ev = self.spec(env, self.st, self.entry_state, self.entry_env)
             g = self.eval_clause(ev, cl, 'callsite requires', 'goal')
             self.oblige('callsite', '%s: %s' % (nm, cl.text), self.reach, g.term, cl.tags, ins.get('line', 0), skolems=ev.skolems)
